@@ -1612,7 +1612,7 @@ def wtdmig(f, dct):
         if colids.nlevels == 1:
             form = 9
             ncol = colids.max()
-        elif value.shape[0] != value.shape[1]:
+        elif value.shape[0] != value.shape[1] or not rowids.equals(colids):
             form = 2
         else:
             if np.allclose(m.transpose(), m):
